@@ -2,7 +2,12 @@ package sim
 
 // Rng is a small self-contained PRNG (splitmix64) so that a seed means the
 // same run under every Go release.
-type Rng struct{ s uint64 }
+type Rng struct {
+	s uint64
+	// ZeroPrefix, when > 0, makes the next Read start with that many zero
+	// bytes (once): entropy with leading zero bytes is one in 256 by chance
+	ZeroPrefix int
+}
 
 //go:norace
 func NewRng(seed uint64) *Rng { return &Rng{s: seed*0x9E3779B97F4A7C15 + 0x1234567} }
@@ -33,6 +38,12 @@ func (r *Rng) Read(p []byte) (int, error) {
 		for j := 0; j < 8 && i+j < len(p); j++ {
 			p[i+j] = byte(v >> (8 * uint(j)))
 		}
+	}
+	if r.ZeroPrefix > 0 {
+		for i := 0; i < r.ZeroPrefix && i < len(p); i++ {
+			p[i] = 0
+		}
+		r.ZeroPrefix = 0
 	}
 	return len(p), nil
 }
